@@ -78,6 +78,13 @@ type LexError struct {
 
 func (e *LexError) Error() string { return fmt.Sprintf("lex error at %d: %s", e.Pos, e.What) }
 
+// Named deviations from the REC.  They are only ever switched on to attribute
+// a disagreement to one known cause; the oracle itself runs with all of them off.
+var (
+	VariantExponentNumbers bool // Number may carry an exponent: Digits ('.' Digits?)? ([eE] Digits)?
+	VariantEmptyParens     bool // '(' ')' is a PrimaryExpr
+)
+
 // Tokenize splits s into ExprTokens following §3.7.
 func Tokenize(s string) ([]Token, error) {
 	if !utf8.ValidString(s) {
@@ -155,6 +162,9 @@ func Tokenize(s string) ([]Token, error) {
 				for j < len(s) && s[j] >= '0' && s[j] <= '9' {
 					j++
 				}
+				if VariantExponentNumbers {
+					j = expTail(s, j)
+				}
 				emit(TNumber, j)
 			} else {
 				emit(TDot, i+1)
@@ -169,6 +179,9 @@ func Tokenize(s string) ([]Token, error) {
 				for j < len(s) && s[j] >= '0' && s[j] <= '9' {
 					j++
 				}
+			}
+			if VariantExponentNumbers {
+				j = expTail(s, j)
 			}
 			emit(TNumber, j)
 		case c == '"' || c == '\'':
@@ -268,4 +281,25 @@ func Tokenize(s string) ([]Token, error) {
 		}
 	}
 	return toks, nil
+}
+
+// expTail extends a number over the characters the implementation's number
+// matcher takes ([0-9.eE]*) when the result still is a float strconv accepts.
+func expTail(s string, j int) int {
+	k := j
+	for k < len(s) && (s[k] >= '0' && s[k] <= '9' || s[k] == 'e' || s[k] == 'E') {
+		k++
+	}
+	if k > j && (s[j] == 'e' || s[j] == 'E') && k-j >= 2 {
+		ok := true
+		for _, c := range s[j+1 : k] {
+			if c < '0' || c > '9' {
+				ok = false
+			}
+		}
+		if ok {
+			return k
+		}
+	}
+	return j
 }
